@@ -102,6 +102,12 @@ CLAIMED = {
          "accepts a run only if asn1c ended by exit, a rejection carried a diagnostic, and every stage after exit 0 succeeded. TLA+ cannot decide 'this C "
          "file compiles': that is observed with gcc / g++ / the descriptor-walking driver on the enumerated programs.",
          "TLC-enumerated (program, option set) runs + TLA+ pipeline protocol monitor over observed build stages"),
+ "C12": ("model_checking", "7 C12",
+         "MC_Runs.tla models the compiler as a function: the history variable 'known' maps an abstract input key (exact invocation; set of files; "
+         "file text under -E) to the output digest first observed, and every later run with the same key must reproduce it (invariant Functional). "
+         "TLC enumerates the run schedules (repeats, every permutation of up to 3 files, one and two print cycles, compile-the-printed-text); each run "
+         "is a separate asn1c process under ASLR; the recorded digests are validated by TLC against the history.",
+         "TLA+ history-variable function-consistency monitor + TLC-enumerated run schedules + trace validation"),
 }
 
 checks = []
